@@ -18,6 +18,8 @@ static const char* names[] = {
     "accessor style: accessor locked in one thread, moved, unlocked in another",
     "thread-local style: reader thread born while the writer scans",
     "accessor style: two writers, one reader",
+    "thread-local style: a nested region entered after the pointer was read (the epoch may have advanced): reader || writer",
+    "accessor style: a nested region entered after the pointer was read: reader || writer",
 };
 int harness_configs() { return sizeof(names) / sizeof(names[0]); }
 const char* harness_config_name(int c) { return names[c]; }
@@ -89,6 +91,23 @@ void harness_main(int cfg) {
       ts.emplace_back([&] { auto a = w.epoch.create_accessor(); a.lock(); Obj* p = w.cell.load(std::memory_order_acquire); use(p); a.unlock(); });
       ts.emplace_back([&] { auto a = w.epoch.create_accessor(); writer(w, 2); });
       ts.emplace_back([&] { auto a = w.epoch.create_accessor(); writer(w, 3); });
+      break;
+    }
+    case 7: case 8: {
+      // the handshake only forces "outer lock + read" -> "unlink + tick" -> "nested lock"; everything after is left to the scheduler
+      std::atomic<int> stage{0};
+      auto wait_for = [&](int k) { while (stage.load(std::memory_order_acquire) != k) sched_yield(); };
+      if (cfg == 7) ts.emplace_back([&] { w.epoch.lock(); Obj* p = w.cell.load(std::memory_order_acquire); stage.store(1, std::memory_order_release); wait_for(2); w.epoch.lock(); use(p); w.epoch.unlock(); use(p); w.epoch.unlock(); });
+      else ts.emplace_back([&] { auto a = w.epoch.create_accessor(); a.lock(); Obj* p = w.cell.load(std::memory_order_acquire); stage.store(1, std::memory_order_release); wait_for(2); a.lock(); use(p); a.unlock(); use(p); a.unlock(); });
+      ts.emplace_back([&] {
+        auto a = cfg == 8 ? w.epoch.create_accessor() : Epoch::Accessor();
+        wait_for(1);
+        Obj* fresh = new Obj(2, 0); Obj* old = w.cell.exchange(fresh, std::memory_order_acq_rel); uint64_t v = w.epoch.tick();
+        stage.store(2, std::memory_order_release);
+        if (w.epoch.low_water_mark() >= v) reclaim(old);
+      });
+      for (auto& t : ts) t.join();
+      ts.clear();
       break;
     }
   }
